@@ -44,6 +44,15 @@ CLAIMED = {
          "rebound global can flow to an API result or written file on any API-reachable path, except randomness after the four documented "
          "default prefixes are exhausted. Nondeterminism inside rdflib/SPARQLWrapper is outside the analysed program", "4 C19",
          "source-to-sink dataflow over the value-flow graph with reachability (R-DET), commutative-loop recognition, global-state lint (R-GLOBAL)"),
+ "C01": ("necessary structural conditions of exact figures, for all graphs: who may write the evidence tables and in which forms (absence "
+         "initialisation, += 1, class append), total accumulation loops, direct/inverse twins, complete memo keys, and the data-flow of every "
+         "reported figure at the candidate and shape construction sites (own 4-level key, same-class denominator, no arithmetic on figures). "
+         "That the tables equal the cardinalities of the input graph is not decided", "4 C01",
+         "who-may-write / write-form lint over the evidence tables, loop-totality, def-use data-flow check at construction sites, twin comparison, memo-key lint, decision table (R-COUNT, R-LOOP, R-FLOW, R-TWIN, R-MEMO, R-TABLE)"),
+ "C09": ("necessary structural conditions of order / relabeling invariance of the evidence, for all graphs: commutative and total "
+         "accumulation, complete memo keys, no set-order escape, node identifiers used only as keys and equality operands in the evidence "
+         "stages, twins, class-only labels. Tie-breaking among equally frequent alternatives is not analysed (the property allows it to vary)", "4 C09",
+         "write-form and loop-totality lints over the evidence tables, memo-key lint, set-order dataflow, identifier-use lint over the value-flow graph, twin comparison (R-COUNT, R-LOOP, R-MEMO, R-DET, R-KEY, R-TWIN)"),
 }
 NA_REASON = {
  "C08": "relates the outputs of different parsers (rdflib readers, two hand-written scanners, TSV splitter, decompressors) on "
